@@ -21,6 +21,8 @@ Enumerations (see `bound` in the output):
   E4 env modes : default_env off / on / JSONARGPARSE_DEFAULT_ENV=true / env=True / env=False at the call, and the
                  PREFIX_LEV__OPT spelling for env_prefix = 'APP' / False / derived from prog.
   E5 (thorough): seeded random chains in which every source picks an independent operation per key.
+  E6 relative  : relative default_config_files patterns (direct, glob, in a sub-directory) x the input config in the working
+                 directory / a sibling / a sub-directory x a file of the same relative name beside the input x every method.
 A failing case is shrunk (projection on the failing key, removal of sources, canonical env mode / layout / method) and
 the canonical violation key is the descriptor of the shrunk chain, so one defect yields one or two keys.
 """
@@ -797,6 +799,90 @@ def enumerate_cases(thorough, rng):
                      dcf=dcf, envcfg=ec, envvars=ev, final=final, envdict=(method == "env" and rng.random() < 0.5))
 
 
+# ---------------------------------------------------------------------------------------------- E6 relative patterns
+def relative_patterns_part(h):
+    """E6: default_config_files given as *relative* patterns name files of the directory the program runs in, whichever
+    parse method is used and wherever the input config lives; a file of the same relative name beside the input config is
+    not a default config file.  Runs in this process (it changes the working directory and restores it)."""
+    from jsonargparse import ArgumentParser
+
+    here = os.getcwd()
+    saved_env = {k: os.environ.pop(k, None) for k in ("APP_CFG", "APP_A", "APP_B", "JSONARGPARSE_DEFAULT_ENV")}
+    try:
+        with tempfile.TemporaryDirectory(prefix="b04_rel_") as tmp:
+            tmp = os.path.realpath(tmp)
+            for layout, patterns, dfile in (("direct", ["defaults.json"], "defaults.json"), ("glob", ["conf.d/*.json"], "conf.d/10.json"),
+                                            ("direct-in-subdir", ["etc/defaults.json"], "etc/defaults.json")):
+                for where in ("same-dir", "sibling-dir", "sub-dir"):
+                    for decoy in (False, True):
+                        for method in ("args", "path", "string", "object", "envcfg"):
+                            root = os.path.join(tmp, "%s-%s-%d-%s" % (layout, where, decoy, method))
+                            work = os.path.join(root, "work")
+                            indir = {"same-dir": work, "sibling-dir": os.path.join(root, "other"), "sub-dir": os.path.join(work, "sub")}[where]
+                            if where == "same-dir" and decoy:
+                                continue
+                            for d in (work, indir):
+                                os.makedirs(os.path.join(d, os.path.dirname(dfile)), exist_ok=True)
+                            with open(os.path.join(work, dfile), "w") as f:
+                                json.dump({"a": 7}, f)
+                            if decoy:
+                                with open(os.path.join(indir, dfile), "w") as f:
+                                    json.dump({"a": 9, "c": 9}, f)
+                            with open(os.path.join(indir, "input.json"), "w") as f:
+                                json.dump({"b": 5}, f)
+                            rel_in = os.path.relpath(os.path.join(indir, "input.json"), work)
+                            os.chdir(work)
+                            try:
+                                with quiet():
+                                    p = ArgumentParser(exit_on_error=False, default_config_files=list(patterns), env_prefix="APP", default_env=(method == "envcfg"))
+                                    p.add_argument("--cfg", action="config")
+                                    p.add_argument("--a", type=int, default=0)
+                                    p.add_argument("--b", type=int, default=0)
+                                    p.add_argument("--c", type=int, default=0)
+                                    if method == "args":
+                                        res = p.parse_args(["--cfg=" + rel_in])
+                                    elif method == "path":
+                                        res = p.parse_path(rel_in)
+                                    elif method == "string":
+                                        res = p.parse_string(json.dumps({"b": 5}))
+                                    elif method == "object":
+                                        res = p.parse_object({"b": 5})
+                                    else:
+                                        os.environ["APP_CFG"] = rel_in
+                                        try:
+                                            res = p.parse_args([])
+                                        finally:
+                                            os.environ.pop("APP_CFG", None)
+                                got = (res.a, res.b, res.c)
+                            except BaseException as ex:  # noqa
+                                got = "raised %s: %s" % (type(ex).__name__, str(ex)[:160].replace(tmp, "<tmp>"))
+                            finally:
+                                os.chdir(here)
+                            want = (7, 5, 0)
+                            if got == want:
+                                outcome = "ok"
+                            elif isinstance(got, str):
+                                outcome = "raised"
+                            elif got[0] == 9 or got[2] == 9:
+                                outcome = "file-beside-the-input-config-applied-as-default-config"
+                            elif got[0] == 0:
+                                outcome = "default-config-file-of-the-working-directory-not-applied"
+                            else:
+                                outcome = "other"
+                            sig = "c04:relative-default-config-pattern:%s:%s:input-in-%s%s" % (layout, method, where, ":same-name-beside-input" if decoy else "")
+                            h.check(outcome == "ok", sig + ":" + outcome,
+                                    "relative default_config_files name files of the working directory for every parse method: expected (a, b, c) = %r, got %r" % (want, got),
+                                    {"cwd": "<work>", "default_config_files": patterns, "file <work>/" + dfile: {"a": 7},
+                                     "input config": os.path.join("<work>", rel_in) + " = {'b': 5}", "method": method,
+                                     "file beside the input config with the same relative name": {"a": 9, "c": 9} if decoy else None})
+                            h.nontrivial(sig)
+    finally:
+        os.chdir(here)
+        for k, v in saved_env.items():
+            if v is not None:
+                os.environ[k] = v
+
+
 def main():
     h = Harness("b04_precedence", rule="one evaluation = one parse of one chain of sources compared, key by key, with the reference fold; "
                 "distinct non-trivial = distinct (method, env mode, prefix, chain descriptor) with at least one source besides the defaults")
@@ -817,19 +903,22 @@ def main():
             collect(h, results)
     else:
         collect(h, map(run_chunk, chunks))
+    relative_patterns_part(h)
     if h.thorough:
         bound = ("0-3 default config files in %d layouts (direct paths, a glob whose listing order differs from the sorted order, a missing file, an empty file, ~, a '?' glob "
                  "with a non-matching file) x 3-5 contents per file; env config {none, string, file} x 3 contents (+1 without appends); env variables {none, 2 sets, each "
                  "key alone}; every sequence of <= 6 command line items over the atoms of one focus key (option, '+' scalar, '+' list, dict item, config file, config "
                  "string; first 4 atoms at lengths 5-6) on an empty and a full pre-chain; parse_args, parse_string, parse_path, parse_object, parse_env (os.environ / "
-                 "dict); default_env off / on / JSONARGPARSE_DEFAULT_ENV / env=True / env=False; env_prefix 'APP' / False / from prog; + 40000 seeded random chains"
+                 "dict); default_env off / on / JSONARGPARSE_DEFAULT_ENV / env=True / env=False; env_prefix 'APP' / False / from prog; + 40000 seeded random chains; + 3 relative patterns x 3 places of the input config x "
+                 "decoy beside it x 5 methods"
                  % len(layouts(True)))
     else:
         bound = ("0-3 default config files in 6 layouts (direct paths, a glob - before and after a direct path - whose listing order differs from the sorted order, a missing "
                  "file) x 3 contents per file; env config {none, string, file} x 5 of 8 contents; env variables {none, 2 sets, each key alone}; every sequence of <= 3 "
                  "command line items over the 4-7 atoms of one focus key (option, '+' scalar, '+' list, dict item, config file, config string; <= 4 items over 4 atoms for "
                  "the flat list key) on an empty pre-chain and <= 2 items on a full one; parse_string / parse_object / parse_path / parse_env (os.environ / dict) on <= 3 / "
-                 "2 / 1 / 3 files; default_env off / on / JSONARGPARSE_DEFAULT_ENV / env=True / env=False; env_prefix 'APP' / False / from prog")
+                 "2 / 1 / 3 files; default_env off / on / JSONARGPARSE_DEFAULT_ENV / env=True / env=False; env_prefix 'APP' / False / from prog; "
+                 "+ 3 relative patterns x 3 places of the input config x decoy beside it x 5 methods")
     sys.exit(h.finish(exhaustive=True, bound=bound))
 
 
